@@ -143,6 +143,31 @@ def ledgerCsvRow (fields : List Str) : Str := csvRowWith ledgerQuote fields
 def ledgerCsvDoc (rows : List (List Str)) : Str := csvDocWith ledgerQuote rows
 def ledgerCsvRead (s : Str) : Option (List (List Str)) := csvGo ledgerDialect .row s
 
+/-- report.cc `fn_join` (`join(x)` in format strings): the note column of the
+    csv report goes through it before it is quoted; a newline becomes the two
+    characters `\\n`, every other character (any byte, any script) is copied. -/
+def joinLines (s : Str) : Str := escape Gen.joinPairs s
+
+/-- undo `joinLines` (a reader of the note column): `\\n` is a newline -/
+def unjoinLines : Bool → Str → Str
+  | false, [] => []
+  | true, [] => ['\\']
+  | false, c :: r => if c = '\\' then unjoinLines true r else c :: unjoinLines false r
+  | true, c :: r => if c = 'n' then '\n' :: unjoinLines false r
+                    else if c = '\\' then '\\' :: unjoinLines true r
+                    else '\\' :: c :: unjoinLines false r
+
+/-- which columns of the shipped format apply `join(...)` to their value -/
+def columnJoins : List Bool := Gen.csvColumns.map (fun e => e.startsWith "join(")
+
+def applyJoins : List Bool → List Str → List Str
+  | j :: js, f :: fs => (if j then joinLines f else f) :: applyJoins js fs
+  | _, fs => fs
+
+/-- One record of the shipped `csv` report from the raw values of its columns
+    (the note column as the journal holds it, newlines included). -/
+def ledgerCsvRecord (raw : List Str) : Str := ledgerCsvRow (applyJoins columnJoins raw)
+
 /-- Is the shipped `csv` report readable by its dialect for every field?  Read
     from the source: it is when the format uses `quoted_rfc`, or when `quoted`
     escapes the backslash too.  False on the pinned tree. -/
